@@ -3,8 +3,8 @@
    (un)packers); proofs: theories/UnionProofs.v.  Tie to /repo: behavioural correspondence
    on every run (harness/props/c11.py). *)
 From Coq Require Import List String ZArith Bool.
-From Verif Require Import UnionModel UnionProofs UnionDeep UnionDeepProofs UnionEmit K16Proofs.
-From VerifGen Require Import K16.
+From Verif Require Import UnionModel UnionProofs UnionDeep UnionDeepProofs UnionEmit K19Proofs.
+From VerifGen Require Import K19.
 Import ListNotations.
 Open Scope string_scope.
 Open Scope Z_scope.
@@ -205,8 +205,8 @@ Proof.
     repeat constructor; simpl; auto; apply C.
 Qed.
 
-(* ---------- K16: the translated emission loop of UnionUnpackerBuilder._add_body ---------- *)
-(* K16.emit is re-translated from /repo on every run; the method text it describes computes union_dec *)
+(* ---------- K19: the translated emission loop of UnionUnpackerBuilder._add_body ---------- *)
+(* K19.emit is re-translated from /repo on every run; the method text it describes computes union_dec *)
 Theorem C11_union_emit_correct : forall co ms d, Forall wf_mspec ms ->
   run_lines co (emit ms) d = union_dec co (map to_member ms) d.
 Proof. exact emit_correct. Qed.
